@@ -1,6 +1,7 @@
 """Script generators shared by C14, C15 and C16 (the Connection engine of go/harness/conn.go)."""
 
-DIALS = ["ok"] * 7 + ["fail"] * 2 + ["fatal"]
+# "dns", "opdns", "timeout", "refused": the error classes a real dialer returns; to the Connection each is one failed attempt
+DIALS = ["ok"] * 14 + ["fail"] * 2 + ["dns", "opdns", "timeout", "refused"] + ["fatal"] * 2
 CONNS = ["ok"] * 8 + ["fail", "fatal"]
 OUTS = ["ok"] * 4 + ["eof", "eofdisc", "eofdisc", "retriable", "retriable", "other"]
 
